@@ -60,6 +60,10 @@ def cases(tier, seed):
             case["via"] = "cli"
             case["o"]["rescale"] = True
             case["nproc"] = [0, 1, 2, 8][F_h("d11_4@59", 4)]            # 0: the command's default (8 processes)
+            if F_h("ignoredist", 2) == 0 and table is not tables[4]:          # (a variable-width table has no bin size)
+                # a distance in bp next to --ignore-diags: fewer, as many and more diagonals than that option asks for
+                b = table[0][2] - table[0][1]
+                case.update({"ignore_dist": rng.choice([0, 1, b, b + 1, 2 * b, 3 * b]), "binsize": b})
             if F_h("fewpx", 2) == 0:
                 case["px"] = case["px"][:rng.randint(0, 6)]        # fewer stored pixels than worker processes
             # (the blacklist goes through a BED file with a header line: one region per blacklisted bin, ending on the bin edge)
